@@ -106,6 +106,15 @@ def _leaf(name, n, seed):
     if name == "triangular_lower_from_full":
         A = P_sq(n, seed)
         return M.TriangularMatrix(_o(A), lower=True), np.tril(A)
+    if name == "triangular_upper_from_full":
+        A = P_sq(n, seed)
+        return M.TriangularMatrix(_o(A), lower=False), np.triu(A)
+    if name in ("inverse_triangular_lower_from_full", "inverse_triangular_upper_from_full"):
+        # the documented behaviour: entries in the other triangle of the array are ignored
+        A = P_sq(n, seed) + 1.5 * np.eye(n)
+        lower = "lower" in name
+        return (M.InverseTriangularMatrix(_o(A), lower=lower),
+                np.linalg.inv(np.tril(A) if lower else np.triu(A)))
     if name in ("inverse_triangular_lower", "inverse_triangular_upper"):
         T = P_tri(n, seed, name.endswith("lower"))
         return (M.InverseTriangularMatrix(_o(T), lower=name.endswith("lower")),
@@ -229,7 +238,8 @@ def _leaf(name, n, seed):
 SQUARE_LEAVES = [
     "identity", "scaled_identity_pos", "scaled_identity_neg", "pos_scaled_identity", "diagonal",
     "pos_diagonal", "triangular_lower", "triangular_upper", "triangular_lower_from_full",
-    "inverse_triangular_lower", "inverse_triangular_upper",
+    "inverse_triangular_lower", "inverse_triangular_upper", "triangular_upper_from_full",
+    "inverse_triangular_lower_from_full", "inverse_triangular_upper_from_full",
     "tri_factored_definite_pos_lower_array", "tri_factored_definite_neg_lower_array",
     "tri_factored_definite_neg_upper_array", "tri_factored_definite_pos_upper_tri",
     "tri_factored_definite_neg_lower_invtri", "tri_factored_pd_lower", "tri_factored_pd_upper",
